@@ -41,7 +41,7 @@ const (
 
 func TestMain(m *testing.M) {
 	_ = flag.Set("logtostderr", "true") // glog: no log files in /tmp
-	vlib.Rule("C01: histories of <=40 operations (write / delete / mark read-only / mark writable / reopen by new Store or by unmount+mount) on a real storage.Store with one volume (needle map kind memory or leveldb, sync or async-fsync write path), over 6 needle ids (one >2^32, one >2^40, one >2^63), 2 cookies, payload lengths {0,1,7,8,9,255,256,random<=64KiB} drawn from a small per-history pool so that identical re-writes occur, names/mimes {absent,empty,short,255 B}, pairs {absent, small JSON, ~3 KiB JSON}, last-modified {absent,past,future,2^40-1}, gzip/manifest flags, optional per-needle TTL; plus bounded-exhaustive enumeration of all canonical operation sequences up to length 3 (quick) / 5 (thorough) over 2 keys x 2 cookies x {empty, 1-byte, same-as-stored} payloads, delete and reopen. After every operation all keys are read back and compared with a reference map. Non-trivial = the history contains an overwrite or a delete of a key that is read afterwards (reads follow every step). Distinct = distinct canonical operation sequence.")
+	vlib.Rule("C01: histories of <=40 operations (write / delete / mark read-only / mark writable / reopen by new Store or by unmount+mount) on a real storage.Store with one volume (needle map kind memory or leveldb, sync or async-fsync write path), over 6 needle ids (one >2^32, one >2^40, one >2^63), 2 cookies, payload lengths {0,1,7,8,9,255,256,random<=64KiB} drawn from a small per-history pool so that identical re-writes occur, names/mimes {absent,empty,short,255 B}, pairs {absent, small JSON, ~3 KiB JSON}, last-modified {absent,past,future,2^40-1}, gzip/manifest flags, optional per-needle TTL; plus bounded-exhaustive enumeration of all canonical operation sequences over 2 keys x 2 cookies x {empty, 1-byte, same-as-stored} payloads, delete and reopen up to length 3 (quick) / 4 (thorough), and up to length 5 on a single key (thorough). After every operation all keys are read back and compared with a reference map. Non-trivial = the history contains an overwrite or a delete of a key that is read afterwards (reads follow every step). Distinct = distinct canonical operation sequence.")
 	vlib.Assume("C01: storage-level part only. Read/delete with a wrong cookie is decided in the HTTP handlers and is not exercised here. A write reported as 'unchanged' (HTTP 204) is treated as not being a write: the oracle then requires that data, name, mime, pairs and flags of the request equal what is stored (the report is truthful) and lets last-modified stay. A write to a *deleted* id with another cookie may be accepted or rejected (the statement does not say; the index keeps the old offset for memory maps and forgets it for regenerated leveldb maps). Per-needle TTLs are >= 2 hours so that nothing expires during a case.")
 	vlib.Main(m)
 }
@@ -601,7 +601,7 @@ func genBlob(t *rapid.T, p *pools, cookies [2]uint32, allowEmpty bool, m *machin
 }
 
 func TestPropHistories(t *testing.T) {
-	vlib.Check(t, 600, 10000, func(t *rapid.T) {
+	vlib.Check(t, 400, 10000, func(t *rapid.T) {
 		kind := storage.NeedleMapInMemory
 		if rapid.IntRange(0, 2).Draw(t, "leveldb") == 0 {
 			kind = storage.NeedleMapLevelDb
